@@ -9,7 +9,7 @@ from .. import gen
 ID = "C16"
 NEEDS_SHIM = False
 RULE = (
-    "histories of <=4 registration calls (constructor metrics= and set_metrics) over a pool of 6-12 metric variables "
+    "histories of <=4 registration calls (constructor metrics= - possibly naming one axis set twice under different spellings - and set_metrics) over a pool of 6-12 metric variables "
     "(two variants per (axes, position) slot, 1-2 axis sets), each call naming 1-3 variables at pairwise different "
     "positions with overwrite True/False and key/value spelled as str/tuple/list; all histories of length <=2 over one "
     "small pool are enumerated exhaustively (600), longer ones are seeded. A shadow registry (slot -> latest variable; "
@@ -81,6 +81,16 @@ def gen_case(rng, i, tier):
             "kspell": rng.choice(["tuple", "list", "str"]) if len(s) == 1 else rng.choice(["tuple", "list"]),
             "vspell": "str" if len(chosen) == 1 and rng.random() < 0.5 else "list",
         })
+    if hist and hist[0]["ctor"] and len(hist) > 1 and hist[1]["axes"] == hist[0]["axes"] and rng.random() < 0.6:
+        # the constructor's mapping may name the same axis set twice under different spellings ('X' and ('X',),
+        # ('X','Y') and ('Y','X')): two entries, registered one after the other like two calls without overwrite
+        hist[1]["ctor"] = True
+        hist[1]["overwrite"] = False
+        hist[1]["kspell"] = "str" if (len(hist[0]["axes"]) == 1 and hist[0]["kspell"] != "str") else "reversed-tuple"
+        if hist[0]["kspell"] not in ("tuple", "str"):
+            hist[0]["kspell"] = "tuple"
+        if len(hist[0]["axes"]) == 1 and hist[1]["kspell"] == "reversed-tuple":
+            hist[1]["ctor"] = False  # a one-axis set has no second tuple spelling
     return {"layout": layout, "pool": pool, "history": hist, "mseed": rng.getrandbits(31), "family": "seeded"}
 
 
@@ -171,16 +181,38 @@ def run_case(ctx, desc):
         hits = [vn for vn in call["vars"] if slot(vn) in shadow]
         refused = bool(hits) and not call["overwrite"]
         feats.append((len(call["vars"]), call["overwrite"], bool(hits), call["ctor"]))
+        if call["ctor"] and k == 1:
+            continue  # second constructor entry: handled together with the first
         if call["ctor"]:
-            try:
-                g = Grid(ds, coords=cm, periodic=False, autoparse_metadata=False, metrics={tuple(call["axes"]): spell_val(call)})
-            except Exception as e:
-                ctx.judged(("ctor", len(call["vars"])), True)
-                ctx.violation("registration-accepted", f"Grid(metrics=...) raised {type(e).__name__}: {str(e)[:150]}")
-                return
+            entries = {(call["axes"][0] if call["kspell"] == "str" else tuple(call["axes"])): spell_val(call)}
+            second = hist[1] if len(hist) > 1 and hist[1]["ctor"] else None
+            if second is not None:
+                key2 = second["axes"][0] if second["kspell"] == "str" else tuple(reversed(second["axes"]))
+                entries[key2] = spell_val(second)
+            # model: the entries are registered in order, without overwrite
             for vn in call["vars"]:
                 shadow[slot(vn)] = vn
                 flat.append((call["axes"], vn, True))
+            refused2 = second is not None and any(slot(vn) in shadow for vn in second["vars"])
+            try:
+                g = Grid(ds, coords=cm, periodic=False, autoparse_metadata=False, metrics=entries)
+                raised = None
+            except Exception as e:
+                raised = e
+            ctx.judged(("ctor", len(call["vars"]), None if second is None else (len(second["vars"]), refused2)), second is not None)
+            if refused2:
+                if raised is None:
+                    ctx.violation("occupied-slot-refused", f"Grid(metrics={entries}): the second entry registers into a slot the first one occupies, "
+                                                           f"without overwrite, but the constructor accepted it")
+                return
+            if raised is not None:
+                ctx.violation("registration-accepted", f"Grid(metrics={entries}) raised {type(raised).__name__}: {str(raised)[:150]}")
+                return
+            if second is not None:
+                feats.append((len(second["vars"]), False, False, True))
+                for vn in second["vars"]:
+                    shadow[slot(vn)] = vn
+                    flat.append((second["axes"], vn, True))
         else:
             if g is None:
                 g = Grid(ds, coords=cm, periodic=False, autoparse_metadata=False)
